@@ -11,8 +11,9 @@ the model). An event is its caller-assigned id, its timestamp and the numeric vi
 Numeric fields are integer valued (`Int`), so the f64 sum/min/max are exact; the one inexact operation,
 the division of `average`, is a parameter `div` (the driver instantiates it with IEEE division on bit patterns).
 A `VecDeque` is a `List` (front = head). `Option` results: `none` = the Rust code panics (division by zero for a
-tumbling window shorter than 1 ms). Session windows of `StreamAlphaNode` and the sliding/session branch of
-`WindowedStream::new` are not modelled.
+tumbling window shorter than 1 ms). Added later (end of this file): the sliding/session branch of
+`WindowedStream::new` after fix-C12c (`wsSliding`) and session windows of `StreamAlphaNode` (`AlphaS`); the sliding and
+session modes of `WindowManager` are the same `WM.process` below with `windowStart = event_time`.
 -/
 namespace C12
 
@@ -227,5 +228,159 @@ def AlphaOld.process (a : AlphaOld) (now : Nat) (pass : Bool) (e : Ev) : Option 
     | some false => some (a, false)
     | some true => some (({ a with events := popOver a.cap (a.events ++ [e]) } : AlphaOld).evict now, true)
   else some (a, false)
+
+/-! ### WindowedStream::new, sliding / session branch (after fix-C12c)
+
+```
+let window_ms = config.duration.as_millis() as u64;
+let step = (window_ms / 2).max(1);            // fix-C12c; before: `current_start += window_ms / 2`
+let mut current_start = min_time;
+while current_start <= max_time {
+    let mut window = TimeWindow::new(type, duration, current_start, max_events);
+    for event in &events { if ts >= current_start && ts < current_start + window_ms { window.add_event(event.clone()); } }
+    if window.count() > 0 { windows.push(window); }
+    current_start += step;
+}
+```
+The `Session { timeout }` configuration takes the same branch (the timeout is not read; `WindowConfig::session`
+sets `duration = timeout`). -/
+
+/-- `events.iter().map(|e| e.metadata.timestamp).min().unwrap()` (the list is not empty where the code calls it) -/
+def minTs : List Ev → Nat
+  | [] => 0
+  | e :: es => es.foldl (fun m x => min m x.ts) e.ts
+
+/-- `events.iter().map(|e| e.metadata.timestamp).max().unwrap()` -/
+def maxTs : List Ev → Nat
+  | [] => 0
+  | e :: es => es.foldl (fun m x => max m x.ts) e.ts
+
+/-- the distance between two window starts: half the duration, at least 1 ms (fix-C12c) -/
+def wsStep (d : Nat) : Nat := max (d / 2) 1
+
+theorem wsStep_pos (d : Nat) : 0 < wsStep d := by unfold wsStep; omega
+
+/-- the starts visited by `while current_start <= max_time { …; current_start += step; }`.
+The loop terminates because — and only because — the step is positive: the definition takes the proof
+`0 < step` and its termination measure `mx + 1 - cur` decreases by it. -/
+def wsGrid (step : Nat) (hstep : 0 < step) (cur mx : Nat) : List Nat :=
+  if cur ≤ mx then cur :: wsGrid step hstep (cur + step) mx else []
+termination_by mx + 1 - cur
+decreasing_by omega
+
+/-- the test in the body of the loop (the same test `add_event` repeats: `stop = start + d`) -/
+def inSpan (s d : Nat) (x : Ev) : Bool := decide (s ≤ x.ts) && decide (x.ts < s + d)
+
+/-- one pass of the loop body: the window that starts at `s` -/
+def wsWindowAt (t : WType) (d cap : Nat) (es : List Ev) (s : Nat) : TW :=
+  fillWindow (TW.new t d s cap) (es.filter (inSpan s d))
+
+/-- the sliding / session branch of `WindowedStream::new` (windows in the order they are pushed) -/
+def wsSliding (t : WType) (d cap : Nat) (es : List Ev) : List TW :=
+  if es.isEmpty then []
+  else ((wsGrid (wsStep d) (wsStep_pos d) (minTs es) (maxTs es)).map (wsWindowAt t d cap es)).filter
+         fun w => decide (0 < w.events.length)
+
+/-- the cursor of the loop as it was *before* fix-C12c, after `n` iterations: `current_start += window_ms / 2` -/
+def wsCursorOld (d : Nat) (start : Nat) : Nat → Nat
+  | 0 => start
+  | n + 1 => wsCursorOld d start n + d / 2
+
+/-! ### StreamAlphaNode, session windows (clock = argument `now`)
+
+`is_in_window` answers `true` in all three session branches, so every event of the right stream/type is accepted;
+`spec.duration` is not read in session mode. `last` = `last_session_event_timestamp`. -/
+
+structure AlphaS where
+  timeout : Nat
+  cap : Nat
+  events : List Ev
+  last : Option Nat
+deriving Repr, DecidableEq
+
+/-- `process_event`, the block before `add_event`: a gap above the timeout (measured from the event that *arrived*
+last, `saturating_sub`) closes the session -/
+def AlphaS.gapReset (a : AlphaS) (ts : Nat) : AlphaS :=
+  match a.last with
+  | some l => if ts - l > a.timeout then { a with events := [], last := none } else a
+  | none => a
+
+/-- `add_event`: push, remember the timestamp, cap -/
+def AlphaS.push (a : AlphaS) (e : Ev) : AlphaS :=
+  { a with events := popOver a.cap (a.events ++ [e]), last := some e.ts }
+
+/-- `evict_expired_events`, session branch: the whole session goes when its last event is older than the timeout -/
+def AlphaS.expire (a : AlphaS) (now : Nat) : AlphaS :=
+  match a.last with
+  | some l => if now - l > a.timeout then { a with events := [], last := none } else a
+  | none => a
+
+/-- `StreamAlphaNode::process_event` with a session window -/
+def AlphaS.process (a : AlphaS) (now : Nat) (pass : Bool) (e : Ev) : AlphaS × Bool :=
+  if pass then ((((a.gapReset e.ts).push e).expire now), true) else (a, false)
+
+/-! ### the other aggregates of `Aggregator::aggregate` (`src/streaming/aggregator.rs`):
+First, Last, CountDistinct, CountBy, Percentile, and when StdDev is defined. The view of the aggregated field is finer
+here than `Ev.val`: CountDistinct tells `Value::Number(3.0)` from `Value::Integer(3)` (it hashes the `{:?}` rendering),
+CountBy does not (both render as "3" with `to_string`, and so does the string "3"). -/
+
+/-- the aggregated field of an event: `Value::Number(v as f64)`, `Value::Integer(v)`, `Value::String(v.to_string())`, absent -/
+inductive FVal where
+  | num (v : Int) | int (v : Int) | str (v : Int) | missing
+deriving Repr, DecidableEq
+
+structure AEv where
+  id : Nat
+  v : FVal
+deriving Repr, DecidableEq
+
+/-- `get_numeric` -/
+def FVal.numeric : FVal → Option Int
+  | .num v => some v
+  | .int v => some v
+  | _ => none
+
+/-- the key `count_by_field` files a value under (`to_string` of the payload; rendered as the integer it spells) -/
+def FVal.key : FVal → Option Int
+  | .num v => some v
+  | .int v => some v
+  | .str v => some v
+  | .missing => none
+
+def avals (es : List AEv) : List Int := es.filterMap (·.v.numeric)
+
+/-- `AggregationType::First` / `Last`: the id of the event at the front / back of the deque -/
+def aggFirst (es : List AEv) : Option Nat := es.head?.map (·.id)
+def aggLast (es : List AEv) : Option Nat := es.getLast?.map (·.id)
+
+/-- a `HashSet` as a duplicate-free list (one representative per value) -/
+def dedup : List FVal → List FVal
+  | [] => []
+  | x :: xs => if x ∈ xs then dedup xs else x :: dedup xs
+
+/-- `count_distinct_values`: the size of the set of `{:?}` renderings of the values present -/
+def aggCountDistinct (es : List AEv) : Nat := (dedup ((es.map (·.v)).filter (· ≠ .missing))).length
+
+/-- `*counts.entry(key).or_insert(0) += 1` on an association list -/
+def bumpCount (k : Int) : List (Int × Nat) → List (Int × Nat)
+  | [] => [(k, 1)]
+  | p :: rest => if p.1 = k then (p.1, p.2 + 1) :: rest else p :: bumpCount k rest
+
+/-- `count_by_field` (a `HashMap<String, usize>`; the observable is the set of entries) -/
+def aggCountBy (es : List AEv) : List (Int × Nat) := (es.filterMap (·.v.key)).foldl (fun m k => bumpCount k m) []
+
+def sortInts (l : List Int) : List Int := l.mergeSort (fun a b => decide (a ≤ b))
+
+/-- the index `calculate_percentile` reads: `(percentile / 100.0 * (len - 1) as f64).round() as usize`. For the
+percentiles 0, 25, 50, 75, 100 (quarters are exact in binary, `round` = half away from zero) this is
+`(p * (len - 1) + 50) / 100`; other percentiles are outside the model. -/
+def pctIndex (p n : Nat) : Nat := (p * (n - 1) + 50) / 100
+
+/-- `calculate_percentile`: sort the numeric values, read the index; `None` without numeric values -/
+def aggPercentile (p : Nat) (es : List AEv) : Option Int :=
+  if (avals es).isEmpty then none else (sortInts (avals es))[pctIndex p (avals es).length]?
+
+/-- `calculate_std_dev` answers `None` with fewer than two numeric values (its value is not modelled) -/
+def aggStdDevDefined (es : List AEv) : Bool := decide (2 ≤ (avals es).length)
 
 end C12
